@@ -522,3 +522,19 @@ package interpreter
 //@ schema fixparse_entry(N=UFix64, S=8, MIN=0, MAX=pow2(64)-1, UNSIGNED=true)
 //@ schema fixparse_entry(N=Fix128, S=24, MIN=-pow2(127), MAX=pow2(127)-1, UNSIGNED=false)
 //@ schema fixparse_entry(N=UFix128, S=24, MIN=0, MAX=pow2(128)-1, UNSIGNED=true)
+
+// ---- C17: the function behind T.fromBigEndianBytes (a closure over the table entry's length limit and constructor):
+// nil exactly when the argument cannot be converted to bytes or is longer than the type's limit (0: no limit);
+// in particular the empty array is converted (to zero), not rejected.
+//@ func AssertValueOfType
+//@   assumed
+//@   nofail
+//@ func NativeFromBigEndianBytesFunction$1
+//@   props C17
+//@   option opaquecalls=noop
+//@   requires len(args) >= 1 && converter != nil
+//@   nofail
+//@   env MemoryMeteringError ComputationMeteringError
+//@   modifies ghost("metered")
+//@   ensures[C17] called("interpreter.ByteArrayValueToByteSlice#1")
+//@   ensures[C17] iff(kind(result) == NilValue, callres("interpreter.ByteArrayValueToByteSlice#1", 1) != nil || (byteLength != 0 && len(callres("interpreter.ByteArrayValueToByteSlice#1", 0)) > byteLength))
